@@ -29,6 +29,7 @@ type vsaExit struct {
 	to     *ssa.BasicBlock
 	from   *ssa.BasicBlock
 	result []aval // return operands
+	ret    *ssa.Return
 	cell   aval   // value of the designated memory cell at exit
 }
 
@@ -380,7 +381,7 @@ func (a *vsa) run() {
 					for _, rv := range x.Results {
 						res = append(res, get(rv, k))
 					}
-					a.exits[k] = vsaExit{kind: "return", result: res, cell: cell[k]}
+					a.exits[k] = vsaExit{kind: "return", result: res, cell: cell[k], ret: x}
 				}
 			case *ssa.Panic:
 				for k := 0; k < n; k++ {
